@@ -128,6 +128,15 @@ func extras() []sqlm.PoolEntry {
 		dflt(col("kind", "text"), "str", "integer primary key autoincrement"),
 	}, PK: []string{"id"}}
 
+	// expression parts x partial predicates, model based (so that Atlas-created and second-apply
+	// databases carry them too)
+	exprp := sqlm.Table{Name: "exprp", Cols: []sqlm.Col{col("id", "integer"), col("name", "text"), ncol("kind", "int"), ncol("gone", "datetime")}, PK: []string{"id"},
+		Idx: []sqlm.Idx{
+			{Name: "exprp_u", Unique: true, Parts: []sqlm.Part{{Expr: "lower(name)"}}, Where: "(gone IS NULL)", Refs: []string{"name", "gone"}},
+			{Name: "exprp_in", Parts: []sqlm.Part{{Col: "kind"}, {Expr: "lower(name)", Desc: true}}, Where: "kind IN (1, 2)", Refs: []string{"name", "kind"}},
+			{Name: "exprp_n", Parts: []sqlm.Part{{Expr: "substr(name, 1, 2)"}, {Col: "kind", Desc: true}}, Where: "(kind > 0) AND (gone IS NULL OR length(name) > (1 + 1))", Refs: []string{"name", "kind", "gone"}},
+		}}
+
 	S := func(ts ...sqlm.Table) sqlm.Schema {
 		var s sqlm.Schema
 		for _, t := range ts {
@@ -147,6 +156,7 @@ func extras() []sqlm.PoolEntry {
 		{Name: "x-fkactions", S: S(parent, parent2, child)},
 		{Name: "x-indexes", S: S(many, strict)},
 		{Name: "x-autoinc", S: S(auto, fake)},
+		{Name: "x-expr-partial", S: S(exprp)},
 	}
 	for _, pe := range out {
 		if err := pe.S.Validate(); err != nil {
@@ -209,6 +219,53 @@ func scripts() []scriptCase {
 		}},
 		{"check-with-nested-strings", []string{
 			"CREATE TABLE ns (a text NOT NULL CHECK (a NOT IN ('CHECK (', ')', 'CONSTRAINT x CHECK (y)')), b text CONSTRAINT ns_b CHECK (b <> '(' OR b IS NULL))",
+		}},
+		// expression key parts x partial predicates, in the shapes the index regexps have to tell apart:
+		// predicate ending in ")", IN lists, nested parentheses, strings holding parentheses and commas,
+		// DESC + expression + column mixes, unique and not
+		{"index-expr-partial-paren-predicate", []string{
+			"CREATE TABLE ixa (id INTEGER PRIMARY KEY, name TEXT NOT NULL, kind INT, deleted_at DATETIME)",
+			"CREATE UNIQUE INDEX ixa_u ON ixa (lower(name)) WHERE (deleted_at IS NULL)",
+		}},
+		{"index-expr-partial-in-list", []string{
+			"CREATE TABLE ixb (id INTEGER PRIMARY KEY, name TEXT NOT NULL, kind INT)",
+			"CREATE INDEX ixb_i ON ixb (kind, lower(name) DESC) WHERE kind IN (1, 2)",
+		}},
+		{"index-expr-partial-nested", []string{
+			"CREATE TABLE ixc (id INTEGER PRIMARY KEY, name TEXT NOT NULL, kind INT, deleted_at DATETIME)",
+			"CREATE INDEX ixc_i ON ixc (substr(name, 1, 2), kind DESC) WHERE ((kind > 0) AND (deleted_at IS NULL OR length(name) > (1 + 1)))",
+			"CREATE UNIQUE INDEX ixc_u ON ixc (kind DESC, (kind + 1), name) WHERE lower(name) = lower('X')",
+		}},
+		{"index-expr-partial-strings", []string{
+			"CREATE TABLE ixd (id INTEGER PRIMARY KEY, name TEXT NOT NULL, kind INT)",
+			"CREATE INDEX ixd_i ON ixd (abs(kind)) WHERE name NOT IN ('a)', '(b')",
+			"CREATE INDEX ixd_j ON ixd ((name || ',' || kind), kind) WHERE name <> ','",
+			"CREATE INDEX ixd_k ON ixd (replace(name, ')', '('), id DESC) WHERE kind = abs(-1)",
+		}},
+		{"index-expr-no-predicate", []string{
+			"CREATE TABLE ixe (id INTEGER PRIMARY KEY, name TEXT NOT NULL, kind INT)",
+			"CREATE INDEX ixe_i ON ixe (lower(name), kind DESC, (kind * 2) DESC)",
+			"CREATE UNIQUE INDEX ixe_u ON ixe ((kind + id))",
+		}},
+		{"index-plain-partial-paren-predicate", []string{
+			"CREATE TABLE ixf (id INTEGER PRIMARY KEY, name TEXT NOT NULL, kind INT)",
+			"CREATE INDEX ixf_i ON ixf (name DESC, kind) WHERE (kind IS NOT NULL)",
+			"CREATE UNIQUE INDEX ixf_u ON ixf (kind) WHERE kind IN (1, 2, 3)",
+		}},
+		// declared types: names the driver does not know (kept verbatim as user defined types), in mixed
+		// case, parameterised, of several words; known names in upper / mixed case
+		{"user-defined-types", []string{
+			"CREATE TABLE udt (id INTEGER PRIMARY KEY, price MONEY, name STRING NOT NULL DEFAULT 'x', sku Varchar2(32), amount NUMBER(10,2), raw Long Raw, tag Mixed_Case, low custom)",
+			"CREATE INDEX udt_i ON udt (sku, price DESC)",
+		}},
+		{"strict-any-type", []string{
+			"CREATE TABLE sany (id INTEGER PRIMARY KEY, v ANY, t TEXT NOT NULL) STRICT",
+		}},
+		{"upper-case-known-types", []string{
+			"CREATE TABLE ukt (id INTEGER PRIMARY KEY, a VARCHAR(100), b DOUBLE PRECISION, c DECIMAL(10,5), d UNSIGNED BIG INT, e BOOLEAN DEFAULT 1, f DATETIME DEFAULT CURRENT_TIMESTAMP, g NATIVE CHARACTER(70), h Text, i bLoB, j Json, k Uuid)",
+		}},
+		{"known-types-outside-registry", []string{
+			"CREATE TABLE kto (id INTEGER PRIMARY KEY, a TIMESTAMP, b CHAR(3), c TIME, d JSONB, e UINT64)",
 		}},
 		{"rename-rewritten", []string{
 			"CREATE TABLE rn0 (id INTEGER PRIMARY KEY AUTOINCREMENT, v text CONSTRAINT rn_ck CHECK (v <> ''), p integer CONSTRAINT rn_fk REFERENCES rn0 (id))",
@@ -323,6 +380,18 @@ func workload(c *rt.Ctx) []Case {
 	for _, sc := range scripts() {
 		add(Case{Pair: sqlm.Pair{Mode: "script"}, Name: "script:" + sc.tag, Src: "script", Script: sc.script, Tag: sc.tag})
 	}
+	// fixed (never sampled) CLI cases: every script, and the pool entries of this package in one raw
+	// style and as created by Atlas
+	var fixedCLI []Case
+	if c.Atlas != "" {
+		for _, sc := range scripts() {
+			fixedCLI = append(fixedCLI, Case{Pair: sqlm.Pair{Mode: "script"}, Name: "cli:script:" + sc.tag, Src: "script", Script: sc.script, Tag: sc.tag, CLI: true})
+		}
+		for i, pe := range extras() {
+			st := sqlm.Styles[i%len(sqlm.Styles)]
+			fixedCLI = append(fixedCLI, Case{Pair: sqlm.Pair{A: pe.S, B: pe.S, Mode: st.Name}, Name: "cli:raw:" + pe.Name + "/" + st.Name, Src: "raw", CLI: true})
+		}
+	}
 	// CLI leg: a seeded, stratified sample of the above is ALSO run with the exports taken from the
 	// real binary (separate processes)
 	if c.Atlas != "" {
@@ -331,9 +400,9 @@ func workload(c *rt.Ctx) []Case {
 		for i, cs := range cases {
 			bySrc[cs.Src] = append(bySrc[cs.Src], i)
 		}
-		want := map[string]int{"raw": c.Pick(22, 400), "atlas": c.Pick(8, 150), "second": c.Pick(26, 450), "script": c.Pick(4, 100)}
+		want := map[string]int{"raw": c.Pick(22, 400), "atlas": c.Pick(8, 150), "second": c.Pick(26, 450)}
 		var ix []int
-		for _, src := range []string{"raw", "atlas", "second", "script"} {
+		for _, src := range []string{"raw", "atlas", "second"} {
 			l := bySrc[src]
 			seen := map[int]bool{}
 			for len(seen) < want[src] && len(seen) < len(l) {
@@ -351,5 +420,5 @@ func workload(c *rt.Ctx) []Case {
 			cases = append(cases, cs)
 		}
 	}
-	return cases
+	return append(cases, fixedCLI...)
 }
